@@ -28,15 +28,6 @@ def lower_first(s):
     return s[0].lower() + s[1:]
 
 
-class _SessionManager:
-    """Stands in for ClientSessionManager: protocols only store `.session` at setup."""
-
-    session = None
-
-    async def close(self):
-        return None
-
-
 HAP_CREDENTIALS = ":".join(["aa" * 32, "bb" * 32, "cc" * 8, "dd" * 8])
 
 
@@ -57,26 +48,45 @@ def default_spec(**kw):
 
 
 class Built:
-    """What `pyatv.connect` has in hand right before `atv.connect()`."""
+    """A device object as returned by the real `pyatv.connect()` (no network: every
+    SetupData.connect is replaced by a coroutine answering True or False)."""
 
-    def __init__(self, atv, queue, dispatcher, order):
-        self.atv = atv
-        self.queue = queue            # [(origin Protocol whose setup() yielded it, SetupData)] in add_protocol order
-        self.dispatcher = dispatcher  # the CoreStateDispatcher shared by facade and protocols
+    def __init__(self, atv, queue, cores, order, error):
+        self.atv = atv                # FacadeAppleTV, connected (None when pyatv.connect raised)
+        self.queue = queue            # [(origin Protocol whose setup() yielded it, original SetupData)] in add_protocol order
+        self.cores = cores            # {origin Protocol: the Core pyatv.connect created and wired for it}
         self.order = order
+        self.error = error            # exception pyatv.connect raised, if any
+
+    def dispatcher_for(self, protocol):
+        """A state dispatcher publishing in the name of `protocol` on the device's core dispatcher."""
+        core = next(iter(self.cores.values()))
+        return core.state_dispatcher.create_copy(protocol)
 
 
-async def _build(spec):
-    """The loop of pyatv.connect (pyatv/__init__.py:127-153) without the final atv.connect()."""
-    from functools import partial
+class _Session:
+    """Stands in for aiohttp.ClientSession: protocols only store it at setup."""
+
+
+async def _connected():
+    return True
+
+
+async def _refused():
+    return False
+
+
+async def _build(spec, fail=()):
+    """Run the real `pyatv.connect()` for a configuration.  Only `pyatv.PROTOCOLS` is wrapped:
+    each protocol's real `setup(core)` is called with the Core pyatv.connect created and wired
+    (takeover method, dispatcher, device listener), and every SetupData it yields is passed on
+    with `connect` answering True (False at the queue positions in `fail`) and a no-op `close`."""
     from ipaddress import IPv4Address
 
+    import pyatv
     from pyatv import conf
     from pyatv.const import Protocol
-    from pyatv.core import CoreStateDispatcher, MutableService, create_core
-    from pyatv.core.facade import FacadeAppleTV
-    from pyatv.protocols import PROTOCOLS
-    from pyatv.settings import Settings
+    from pyatv.core import MutableService
 
     config = conf.AppleTV(IPv4Address("127.0.0.1"), "verif")
     for name in spec["services"]:
@@ -91,36 +101,62 @@ async def _build(spec):
         if p == Protocol.Companion and spec["companion_creds"]:
             cred = HAP_CREDENTIALS
         config.add_service(MutableService("id-" + p.name, p, 1234, props, credentials=cred))
-    settings = Settings()
-    sm = _SessionManager()
-    dispatcher = CoreStateDispatcher()
-    atv = FacadeAppleTV(config, sm, dispatcher, settings)
-    queue = []
-    for proto, methods in PROTOCOLS.items():
-        service = config.get_service(proto)
-        if service is None or not service.enabled:
-            continue
-        core = await create_core(
-            config, service, settings=settings, device_listener=atv,
-            session_manager=sm, core_dispatcher=dispatcher,
-            takeover_method=partial(atv.takeover, proto), loop=asyncio.get_running_loop())
-        for sd in methods.setup(core):
-            queue.append((proto, sd))
-    return Built(atv, queue, dispatcher, list(PROTOCOLS.keys()))
+
+    queue, cores = [], {}
+    real = pyatv.PROTOCOLS
+
+    def wrap(proto, methods):
+        def setup(core):
+            cores[proto] = core
+            for sd in methods.setup(core):
+                k = len(queue)
+                queue.append((proto, sd))
+                yield sd._replace(connect=_refused if k in fail else _connected, close=lambda: set())
+        return methods._replace(setup=setup)
+
+    pyatv.PROTOCOLS = {proto: wrap(proto, methods) for proto, methods in real.items()}
+    atv, error = None, None
+    try:
+        atv = await pyatv.connect(config, asyncio.get_running_loop(), session=_Session())
+    except Exception as e:   # e.g. NoServiceError when nothing was set up
+        error = e
+    finally:
+        pyatv.PROTOCOLS = real
+    return Built(atv, queue, cores, list(real.keys()), error)
 
 
-def build_world(loop=None, spec=None):
-    """Set the protocols of a configuration up (no connection is made).  The facade is NOT
-    connected: callers add the SetupData they want (with `connect` replaced) and call
-    `atv.connect()`."""
+def build_world(loop=None, spec=None, fail=()):
+    """Connect (without network) to the device described by `spec` through pyatv.connect()."""
     spec = spec or default_spec()
     if loop is not None:
-        return loop.run_until_complete(_build(spec))
+        return loop.run_until_complete(_build(spec, fail))
     loop = asyncio.new_event_loop()
     try:
-        return loop.run_until_complete(_build(spec))
+        return loop.run_until_complete(_build(spec, fail))
     finally:
         loop.close()
+
+
+def reachable_cores(sd):
+    """The Core objects the registered instances of a SetupData hold (directly or through one
+    collaborator): what that protocol's code calls `core.takeover(...)` on."""
+    from pyatv.core import Core
+
+    seen, out = set(), []
+
+    def walk(obj, depth):
+        if id(obj) in seen or depth > 2:
+            return
+        seen.add(id(obj))
+        if isinstance(obj, Core):
+            out.append(obj)
+            return
+        for value in list(getattr(obj, "__dict__", {}).values()) if isinstance(getattr(obj, "__dict__", None), dict) else []:
+            walk(value, depth + 1)
+
+    for inst in sd.interfaces.values():
+        walk(inst, 0)
+    return out
 
 
 def native_setups(built):
